@@ -87,6 +87,11 @@ func PrintUniverse() []wire.Path {
 	// contents of strings, keys and variables
 	contents := []string{"", "a", "a b", "\"", "\\", "/", "'", "\x01", "\x07", "\x08", "\x09", "\x0a", "\x0b", "\x0c", "\x0d", "\x1b", "\x1f", "\x7f",
 		"é", "\u0080", "​", " ", "�", "\U0001F600", "\U000E0001", "a\"b\\c\nd", "$", "@", "last", "true", "1", "a.b", "中"}
+	// a literal backslash before every letter an escape could start with
+	for _, c := range "abfnrtvxuU\\\"/0'{" {
+		contents = append(contents, "C:\\"+string(c)+"pps", "\\"+string(c))
+	}
+	contents = append(contents, "\\u0041", "\\x41", "\\u{41}", "\x07\\a\x07", "\\\\a")
 	for _, c := range contents {
 		b := wire.Bytes(c)
 		expr(wire.Node{K: "str", S: b})
